@@ -11,7 +11,9 @@ use swimos_model::{Attr, Blob, Item, Text, Value};
 pub const NAMES: [&str; 4] = ["a", "a b", "", "true"];
 
 pub fn text_atoms() -> Vec<&'static str> {
-    vec!["", "a", "true", "a b", "\"", "\\", "\u{0}", "\n", "é", "\u{10FFFF}", "@x", "1"]
+    // "inf", "info", "NaN", "false": identifiers that are, or begin with, a word of the numeric /
+    // boolean grammar (a text printed bare must not be read back as a number)
+    vec!["", "a", "true", "a b", "\"", "\\", "\u{0}", "\n", "é", "\u{10FFFF}", "@x", "1", "inf", "info", "NaN", "false"]
 }
 
 pub fn atoms_full() -> Vec<Value> {
@@ -49,6 +51,7 @@ pub fn atoms_reduced() -> Vec<Value> {
         Value::BooleanValue(true),
         Value::Text(Text::new("a")),
         Value::Text(Text::new("a b")),
+        Value::Text(Text::new("info")),
         Value::Text(Text::new("\u{0}")),
         Value::Text(Text::new("é")),
         Value::Text(Text::new("")),
